@@ -8,7 +8,6 @@ import (
 	pb "github.com/buildbarn/bb-storage/pkg/proto/blobstore/local"
 )
 
-
 // Verif_C02_P1_InvariantPerMethod: each method of PersistentBlockList preserves
 // the representation invariant from an arbitrary valid state (inductive step).
 func Verif_C02_P1_InvariantPerMethod() { verifScenarioPBLMethod() }
@@ -71,88 +70,14 @@ func Verif_C02_P2b_ExportedState() {
 // the same seed; references of epochs that were not exported do not resolve;
 // nothing at or after a refused block resolves; restored write offsets are the
 // exported ones.
-func Verif_C02_P3_RestartRoundTrip() {
-	mb, me, mp := verifPBLBounds()
-	x := verifNewPBL(mb, me, mp)
-	bl := x.bl
-	oldest, blocks := bl.GetPersistentState()
-	exportedEpochs := 0
-	for _, bs := range blocks {
-		exportedEpochs += len(bs.EpochHashSeeds)
-	}
-	alloc2 := &verifPAllocator{refuseAt: -1}
-	if len(blocks) > 0 && vnd.Choose(2) == 1 {
-		vnd.Cover("location-refused")
-		alloc2.refuseAt = vnd.Choose(len(blocks))
-	}
-	bl2, n2 := NewPersistentBlockList(alloc2, oldest, blocks)
-	verifPBLInvariant(bl2, "restored list")
-	if alloc2.refuseAt < 0 {
-		vnd.Assert(n2 == len(blocks), "not all exported blocks were restored")
-	} else {
-		vnd.Assert(n2 == alloc2.refuseAt, "restore did not stop at the first block the allocator refused")
-	}
-	for j := 0; j < n2; j++ {
-		vnd.Assert(alloc2.restoredW[j] == blocks[j].WriteOffsetBytes, "restored write offset differs from the exported one")
-		vnd.Assert(alloc2.restored[j].id == j, "restored block is not the exported block")
-	}
-	// every (epoch, blocksFromLast) pair within the bound
-	E := len(bl.epochHashSeeds)
-	for e := 0; e < E+1; e++ {
-		for bfl := 0; bfl <= len(bl.blocks); bfl++ {
-			ref := BlockReference{EpochID: bl.oldestEpochID + uint32(e), BlocksFromLast: uint16(bfl)}
-			i1, s1, ok1 := bl.BlockReferenceToBlockIndex(ref)
-			i2, s2, ok2 := bl2.BlockReferenceToBlockIndex(ref)
-			if ok2 {
-				vnd.Cover("resolves-after-restart")
-				vnd.Assert(e < exportedEpochs, "a reference of an epoch that was not exported resolves after restart")
-				vnd.Assert(ok1, "a reference resolves after restart that did not resolve before")
-				if ok1 {
-					vnd.Assert(alloc2.restored[i2].id == x.blocks[i1].id, "a reference resolves to a different physical block after restart")
-					vnd.Assert(s1 == s2, "epoch hash seed changed across restart")
-				}
-			} else if ok1 && e < exportedEpochs && (alloc2.refuseAt < 0 || i1 < alloc2.refuseAt) {
-				// the whole epoch must survive only if none of its blocks was refused
-				last := bl.epochLastAbsoluteBlockIndex[e] - bl.totalBlocksReleased
-				if alloc2.refuseAt < 0 || last < alloc2.refuseAt {
-					vnd.Assert(false, "a reference of an exported epoch into a restored block no longer resolves after restart")
-				}
-			}
-		}
-	}
-	var _ *pb.BlockState
-}
+func Verif_C02_P3_RestartRoundTrip() { verifScenarioRestartRoundTrip() }
 
 // Verif_C02_P7_DeferredRelease: a block popped after GetPersistentState is not
 // released by the NotifyPersistentStateWritten that follows; blocks are released
 // exactly once and only by that call.
-func Verif_C02_P7_DeferredRelease() {
-	mb, me, mp := verifPBLBounds()
-	x := verifNewPBL(mb, me, mp)
-	bl := x.bl
-	vnd.Assume(bl.blocksReleasing == 0)
-	pending0 := len(bl.blocksToRelease)
-	bl.GetPersistentState()
-	popped := 0
-	if len(bl.blocks) > 0 && vnd.Choose(2) == 1 {
-		vnd.Cover("popped-after-export")
-		bl.PopFront()
-		popped = 1
-	}
-	for _, b := range x.pend {
-		vnd.Assert(b.releases == 0, "a block was released before the state file was written")
-	}
-	bl.NotifyPersistentStateWritten()
-	for i, b := range x.pend {
-		if i < pending0 {
-			vnd.Assert(b.releases == 1, "a block listed for release when the state was exported was not released exactly once")
-		}
-	}
-	if popped == 1 {
-		vnd.Assert(x.blocks[0].releases == 0, "a block popped after the state was exported was released by that state write")
-		vnd.Assert(len(bl.blocksToRelease) == 1, "the block popped after the export is no longer pending")
-		vnd.Assert(!bl.blockReleaseWakeup.isBlocking, "release wake-up blocked although a block still awaits release")
-	}
-	verifPBLInvariant(bl, "after the state write")
-	vnd.Cover("released")
-}
+func Verif_C02_P7_DeferredRelease() { verifScenarioDeferredRelease() }
+
+// Verif_C02_P5_CommitOrdering: data sync before state export before state write before
+// release notification, with retries; NotifyPersistentStateWritten only after a
+// successful write of the state obtained by the immediately preceding export.
+func Verif_C02_P5_CommitOrdering() { verifScenarioProcessBlockPut() }
